@@ -39,7 +39,9 @@ def run(ctx):
     ctx.cov["traces_validated_against_impl"] = ctx.counts.get("cp_compared", 0)
     ctx.cov["rule"] = "distinct (isa, model, kernel) with at least one dependency edge"
     ctx.log("%d kernels, %d under-reports (known finding)" % (ctx.counts.get("kernels", 0), ctx.counts.get("cp_underreports", 0)))
-    return ctx.finish(trusted=dgcheck.TRUSTED)
+    ctx.cov["programs"] = ctx.counts.get("kernels", 0)
+    ctx.cov["disagreements_checked"] = ctx.counts.get("cp_compared", 0)
+    return ctx.finish(level="translation_validation", trusted=dgcheck.TRUSTED)
 
 
 def replay(ctx, path):
